@@ -409,6 +409,8 @@ func replay(beh behT, bi int) {
 			}
 		}
 		x, y := e.regs[xa], e.regs[ya]
+		prevDirty, prevOrigin := dirty(e.regs[d]), e.origin[d]
+		xDirtyBefore, yDirtyBefore, xOrigin, yOrigin := dirty(x), dirty(y), e.origin[xa], e.origin[ya]
 		var res *bitarray.BitArray
 		var do func() *bitarray.BitArray
 		self := false
@@ -545,13 +547,19 @@ func replay(beh behT, bi int) {
 				res = build(ex.bits, ex.isNil) // resynchronise
 			}
 		}
-		// provenance of bits beyond the size (guidance only)
+		// provenance of bits beyond the size (guidance only): which action first wrote them
 		if dirty(res) {
 			switch {
-			case dirty(x) && act != "New":
-				e.origin[d] = e.origin[xa]
-			case dirty(y) && act != "New":
+			case act == "Set" && prevDirty: // in place on an array that already carried them
+				e.origin[d] = prevOrigin
+			case act == "Update" && yDirtyBefore:
 				e.origin[d] = e.origin[ya]
+			case act == "Update" && prevDirty:
+				e.origin[d] = prevOrigin
+			case act != "New" && act != "Empty" && act != "Set" && act != "Update" && xDirtyBefore:
+				e.origin[d] = xOrigin
+			case act != "New" && act != "Empty" && act != "Set" && act != "Update" && yDirtyBefore:
+				e.origin[d] = yOrigin
 			default:
 				e.origin[d] = act
 			}
